@@ -37,6 +37,7 @@ type c18Scenario struct {
 	CtxDialer   bool   `json:"ctx_dialer"`
 	Cycles      int    `json:"cycles"`
 	NewNick     string `json:"welcome_nick"` // nick given by the first 001 ("" = no 001)
+	LateWhat    string `json:"late_what"`    // all: Server, SSL and Pass are set late; ssl: only SSL is flipped late
 	LateConfig  bool   `json:"late_config"`  // Server / SSL / Pass are set through Config() after Client(), before Connect()
 	Backlog     int    `json:"backlog"`      // lines queued behind a server that is not reading when the PINGs arrive
 	Chatty      bool   `json:"chatty"`       // the server keeps talking while the client's keep-alive PINGs are awaited
@@ -60,6 +61,9 @@ func genC18(t *rapid.T) *c18Scenario {
 		NewNick:    rapid.SampledFrom([]string{"", "me", "other9", "Nick_1"}).Draw(t, "welcome_nick"),
 	}
 	sc.LateConfig = rapid.Bool().Draw(t, "late_config")
+	if sc.LateConfig {
+		sc.LateWhat = rapid.SampledFrom([]string{"all", "ssl"}).Draw(t, "late_what")
+	}
 	sc.Chatty = rapid.Bool().Draw(t, "chatty")
 	if rapid.IntRange(0, 3).Draw(t, "backlog") == 0 {
 		sc.Backlog = rapid.SampledFrom([]int{20, 33, 40, 80}).Draw(t, "backlog_n")
@@ -134,6 +138,12 @@ func runC18(sc *c18Scenario) *Violation {
 		Configure: func(cfg *client.Config) {
 			cfg.Me.Ident, cfg.Me.Name = sc.Ident, string(sc.Name)
 			cfg.EnableCapabilityNegotiation = sc.CapNeg
+			if sc.LateConfig && sc.LateWhat == "ssl" {
+				// Server is known from the start; whether to use TLS is decided (the other way round) later
+				cfg.Pass = string(sc.Pass)
+				cfg.SSL = !sc.SSL
+				return
+			}
 			if sc.LateConfig {
 				cfg.Server = "placeholder.invalid:1"
 				return
@@ -146,7 +156,11 @@ func runC18(sc *c18Scenario) *Violation {
 		// "Changing these after connection will have no effect until the client reconnects" - so
 		// changing them before the first Connect must take effect
 		cfg := tc.C.Config()
-		cfg.Server, cfg.Pass, cfg.SSL = sc.Server, string(sc.Pass), sc.SSL
+		if sc.LateWhat == "ssl" {
+			cfg.SSL = sc.SSL
+		} else {
+			cfg.Server, cfg.Pass, cfg.SSL = sc.Server, string(sc.Pass), sc.SSL
+		}
 	}
 	disc := make(chan struct{}, 8)
 	tc.C.HandleFunc(client.DISCONNECTED, func(*client.Conn, *client.Line) { disc <- struct{}{} })
@@ -353,7 +367,7 @@ func (sc *c18Scenario) classes() (cls []string, nontrivial bool) {
 		cls = append(cls, "reconnect")
 	}
 	if sc.LateConfig {
-		cls = append(cls, "late_config")
+		cls = append(cls, "late_config="+sc.LateWhat)
 	}
 	if sc.Backlog > 0 {
 		cls = append(cls, "pings_behind_backlog")
